@@ -199,10 +199,10 @@ func (fc *FnCtx) execBlock(b *ssa.BasicBlock, st *State) []edgeOut {
 				}
 				sort.Strings(gs)
 				for _, g := range gs {
-					if g == "locked" {
+					gf := fc.e.spec.Ghosts[g]
+					if gf.Of == "" || gf.Of != fc.e.typeName(T) {
 						continue
 					}
-					gf := fc.e.spec.Ghosts[g]
 					fc.ghostSet(st, g, gf.Sort, r, zeroOfSort(gf.Sort))
 				}
 				fc.onceInit(st, r, T)
